@@ -16,7 +16,10 @@ CMD_DOC = ('cargo kani -Z function-contracts -Z stubbing -Z unstable-options --h
 
 def _env():
     return dict(os.environ, CARGO_NET_OFFLINE='true',
-                CARGO_TARGET_DIR=os.environ.get('VEKVERIF_KANI_TARGET', os.path.join(WORK, 'kani_target')))
+                CARGO_TARGET_DIR=os.environ.get('VEKVERIF_KANI_TARGET', os.path.join(WORK, 'kani_target_' + _CRATE[0])))
+
+
+_CRATE = ['x']
 
 
 def load_specs(crate):
@@ -35,27 +38,49 @@ def _prepare(KDIR):
 
 
 def parse(out):
-    """-> {harness: dict(status, failed_checks, checks)}"""
+    """-> {harness: dict(status, failed_checks, checks, text)}.  Works for sequential and `-j` (Thread N:) output."""
     res = {}
-    # terse format: "Checking harness NAME..." blocks (may interleave under -j; kani prints per-harness summaries)
-    blocks = re.split(r'(?=Checking harness )', out)
-    for b in blocks:
-        m = re.match(r'Checking harness (\S+?)\.\.\.', b)
-        if not m:
+    cur = {}          # thread id -> harness
+    last_thread = '0'
+    blocks = {}       # harness -> list of lines
+    for line in out.split('\n'):
+        m = re.match(r'(?:Thread (\d+): )?Checking harness (\S+?)\.\.\.', line)
+        if m:
+            t = m.group(1) or '0'
+            name = m.group(2).split('::')[-1]
+            cur[t] = name
+            blocks.setdefault(name, [])
+            last_thread = t
             continue
-        name = m.group(1).split('::')[-1]
+        m = re.match(r'Thread (\d+): ?(.*)$', line)
+        if m:
+            last_thread = m.group(1)
+            line = m.group(2)
+        h = cur.get(last_thread)
+        if h is not None:
+            blocks[h].append(line)
+    failed_final = set(x.split('::')[-1] for x in re.findall(r'Verification failed for - (\S+)', out))
+    complete = re.search(r'Complete - (\d+) successfully verified harnesses, (\d+) failures, (\d+) total', out) is not None \
+        or re.search(r'(\d+) successfully verified harnesses', out) is not None
+    for name, lines in blocks.items():
+        b = '\n'.join(lines)
         st = None
         if 'VERIFICATION:- SUCCESSFUL' in b:
             st = 'ok'
         elif 'VERIFICATION:- FAILED' in b:
             st = 'failed'
-        elif 'CBMC timed out' in b or 'timed out' in b:
+        if 'CBMC timed out' in b or 'timed out' in b.lower():
             st = 'timeout'
+        if complete:
+            if name in failed_final and st != 'timeout':
+                st = 'failed'
+            elif name not in failed_final and st is None:
+                st = 'ok'
         failed = re.findall(r'Failed Checks: (.*)', b)
         mm = re.search(r'\*\* (\d+) of (\d+) failed', b)
         checks = int(mm.group(2)) if mm else None
         unwind = any('unwinding assertion' in f for f in failed)
-        unsupported = any('is not currently supported by Kani' in f or 'unsupported' in f.lower() for f in failed)
+        unsupported = any('is not currently supported by Kani' in f for f in failed)
         res[name] = dict(status=st, failed_checks=failed[:12], checks=checks, unwind=unwind, unsupported=unsupported,
                          text=b[-3500:])
     return res
@@ -64,6 +89,7 @@ def parse(out):
 def run(specs, workdir, tier):
     """specs: list of dict(harness=name, timeout=s (optional), tier='quick'|'thorough', expect_fail=bool)"""
     KDIR = os.path.join(KROOT, specs[0]['crate'])
+    _CRATE[0] = specs[0]['crate']
     _prepare(KDIR)
     specs = [s for s in specs if tier == 'thorough' or s.get('tier', 'quick') == 'quick']
     if not specs:
